@@ -252,7 +252,7 @@ fn eval(rep: &mut Report, c: RCase, idx: u64) -> Done {
     let firsts = first_listable(&ix);
     let mut arts: Vec<Artifact> = firsts.iter().map(|(n, d)| Artifact { rel: n.clone(), content: d.clone(), intent: intent_from(n, d) }).collect();
     arts.extend(c.dir.iter().map(|(n, d)| Artifact { rel: n.clone(), content: d.clone(), intent: intent_from(n, d) }));
-    let ref_case = Case { ignore_orphan: c.ignore_orphan, llvm: c.llvm, arts, layouts: vec![], cli: false };
+    let ref_case = Case { ignore_orphan: c.ignore_orphan, llvm: c.llvm, arts, layouts: vec![], cli: false, filter: None };
     let want = expected(&ref_case, &choice_from(&ref_case, &obs));
     // (2) the same files as ONE directory (when they can live in one tree and nothing is given twice)
     let mut dir_obs = None;
